@@ -23,7 +23,7 @@ FUEL = 400_000
 # every classification entry of the registry is wrapped (quantifier: "SingleAnnotatorWrapper around every
 # single-annotator strategy"); the cheap ones are over-represented
 INNER_LIGHT = ["CoreSet", "RandomSampling", "UncertaintySampling:entropy", "UncertaintySampling:margin_sampling", "ProbabilisticAL", "EpistemicUncertaintySampling", "Falcun", "QueryByCommittee:vote_entropy", "QueryByCommittee:KL_divergence", "ContrastiveAL"]
-INNER_ALL = [k for k, e in R.ENTRIES.items() if e["task"] == "clf" and not e["flags"].get("wrap") and not e["flags"].get("kernel_X")]
+INNER_ALL = [k for k, e in R.ENTRIES.items() if e["task"] == "clf" and not e["flags"].get("wrap") and not e["flags"].get("kernel_X") and not e["flags"].get("fragile")]
 INNER = INNER_LIGHT * 3 + [k for k in INNER_ALL if not R.ENTRIES[k]["flags"].get("heavy")] * 2 + INNER_ALL
 
 
